@@ -50,6 +50,8 @@ class Engine:
         self.side_counter: Dict[str, int] = {}
         self.finding_ctx: Optional[str] = None
         self.notes: List[str] = []
+        self.keep_terms = False     # path conditions keep the terms as the code built them (no simplifier normal forms)
+        self.cover_qf = False       # covers checked against the quantifier-free part of the path condition only
         self.cur_props: Optional[List[str]] = None   # property tags of the obligations being generated (default: self.props)
         self.concrete: Optional[dict] = None   # replay mode: name -> z3 value taken from a counter-model
 
@@ -107,7 +109,8 @@ class Engine:
                 raise StopPath()
             self.dec.append((kind, d))
         self.pos += 1
-        c = cs if d else z3.Not(cs)
+        base = cond if self.keep_terms else cs
+        c = base if d else z3.Not(base)
         self.pc.append(c)
         self.light.append(c)
         return d
@@ -143,7 +146,7 @@ class Engine:
     # ------------------------------------------------------------ obligations
     def oblige(self, label: str, goal, kind: str = "post", finding: Optional[str] = None,
                expect: str = "valid", meta: Optional[dict] = None, timeout_s: float = 0.0,
-               props: Optional[List[str]] = None) -> None:
+               props: Optional[List[str]] = None, qf: bool = False, pruned_extra: Optional[list] = None) -> None:
         if isinstance(goal, bool):
             goal = z3.BoolVal(goal)
         self.labels_seen[label] = self.labels_seen.get(label, 0) + 1
@@ -152,7 +155,10 @@ class Engine:
         self.side_counter[oid] = n + 1
         if n:
             oid += "#%d" % n
-        o = _obl.make(oid, kind, self.func, self.where, self.pc, goal, expect=expect, scope=self.scope,
+        # qf=True: a quantifier-free goal that needs only the quantifier-free part of the path condition (sound: fewer hypotheses)
+        # pruned_extra: instances of quantified hypotheses; the obligation is first tried with light pc + these instances only
+        o = _obl.make(oid, kind, self.func, self.where, self.light if qf else self.pc, goal, expect=expect, scope=self.scope,
+                      pruned_pc=(self.light + list(pruned_extra)) if pruned_extra is not None else None,
                       finding=finding or self.finding_ctx,
                       meta=dict(meta or {}, props=props or self.cur_props or self.props, label=label),
                       timeout_s=timeout_s)
@@ -167,7 +173,7 @@ class Engine:
 
     def cover(self, label: str, cond=None) -> None:
         """Vacuity guard: the current path condition (and cond) must be satisfiable."""
-        self.oblige("cover:" + label, z3.BoolVal(True) if cond is None else cond, kind="cover", expect="sat")
+        self.oblige("cover:" + label, z3.BoolVal(True) if cond is None else cond, kind="cover", expect="sat", qf=self.cover_qf)
 
     def _repo_line(self) -> str:
         if not self.srcfile:
